@@ -119,7 +119,7 @@ func (e *Engine) checkShadow(sh *Shadow, full bool) *Violation {
 				return v
 			}
 		}
-		for k := range e.touched {
+		for _, k := range sortedEntities(e.touched) {
 			if me, ok := e.M.ByH[k]; ok {
 				if v := e.checkEntity(s, me, ""); v != nil {
 					return override(v, "reset-diff")
